@@ -80,29 +80,43 @@ const FIELDS: [Field; 7] = [
     Field { name: "blkw", bits: 16, signed: false, nonzero: true },
 ];
 
-fn field_src(f: &Field, tok: &str) -> String {
-    match f.name {
-        "imm5" => format!("ADD R1, R2, {tok}"), "offset6" => format!("LDR R1, R2, {tok}"), "pcoffset9" => format!("LD R1, {tok}"),
-        "pcoffset11" => format!("JSR {tok}"), "trapvect8" => format!("TRAP {tok}"), "orig" => format!(".orig {tok}"), _ => format!(".blkw {tok}"),
+/// every mnemonic that takes the field (the field check is repeated for each of them)
+fn field_forms(f: &Field) -> usize { match f.name { "imm5" => 2, "offset6" => 2, "pcoffset9" => 10, _ => 1 } }
+const BRS: [(&str, u8); 4] = [("BR", 7), ("BRnzp", 7), ("BRz", 2), ("brnp", 5)];
+fn field_src(f: &Field, form: usize, tok: &str) -> String {
+    match (f.name, form) {
+        ("imm5", 0) => format!("ADD R1, R2, {tok}"), ("imm5", _) => format!("AND R7, R0, {tok}"),
+        ("offset6", 0) => format!("LDR R1, R2, {tok}"), ("offset6", _) => format!("STR R3, R6, {tok}"),
+        ("pcoffset9", 0) => format!("LD R1, {tok}"), ("pcoffset9", 1) => format!("LDI R2, {tok}"), ("pcoffset9", 2) => format!("LEA R3, {tok}"),
+        ("pcoffset9", 3) => format!("ST R4, {tok}"), ("pcoffset9", 4) => format!("STI R5, {tok}"), ("pcoffset9", 5) => format!("NOP {tok}"),
+        ("pcoffset9", k) => format!("{} {tok}", BRS[k - 6].0),
+        ("pcoffset11", _) => format!("JSR {tok}"), ("trapvect8", _) => format!("TRAP {tok}"), ("orig", _) => format!(".orig {tok}"), _ => format!(".blkw {tok}"),
     }
 }
-fn field_expect(f: &Field, v: i64) -> K {
-    match f.name {
-        "imm5" => K::Add(1, 2, Src::Imm(v as i32)), "offset6" => K::Ldr(1, 2, v as i32), "pcoffset9" => K::Ld(1, PcOp::Num(v as i32)),
-        "pcoffset11" => K::Jsr(PcOp::Num(v as i32)), "trapvect8" => K::Trap(v as i32), "orig" => K::Orig(v as i32), _ => K::Blkw(v as i32),
+fn field_expect(f: &Field, form: usize, v: i64) -> K {
+    let n = PcOp::Num(v as i32);
+    match (f.name, form) {
+        ("imm5", 0) => K::Add(1, 2, Src::Imm(v as i32)), ("imm5", _) => K::And(7, 0, Src::Imm(v as i32)),
+        ("offset6", 0) => K::Ldr(1, 2, v as i32), ("offset6", _) => K::Str(3, 6, v as i32),
+        ("pcoffset9", 0) => K::Ld(1, n), ("pcoffset9", 1) => K::Ldi(2, n), ("pcoffset9", 2) => K::Lea(3, n), ("pcoffset9", 3) => K::St(4, n), ("pcoffset9", 4) => K::Sti(5, n),
+        ("pcoffset9", 5) => K::Nop(Some(n)), ("pcoffset9", k) => K::Br(BRS[k - 6].1, n),
+        ("pcoffset11", _) => K::Jsr(n), ("trapvect8", _) => K::Trap(v as i32), ("orig", _) => K::Orig(v as i32), _ => K::Blkw(v as i32),
     }
 }
 
 fn check_field(ctx: &mut Ctx, f: &Field, text: &str, v: i64, signed_form: bool) {
-    ctx.eval();
-    let src = field_src(f, text);
-    let case = || Json::obj().set("source", src.as_str()).set("value", v).set("field", f.name);
-    let Some(res) = ctx.no_panic("parse_ast", case, || parse_ast(&src)) else { return };
     let fits = token_valid(v, signed_form) && if f.signed { v >= -(1i64 << (f.bits - 1)) && v < (1i64 << (f.bits - 1)) } else { v >= 0 && v < (1i64 << f.bits) } && !(f.nonzero && v == 0);
-    match (res, fits) {
-        (Ok(ast), true) if ast.len() == 1 && from_crate(&ast[0]).k == field_expect(f, v) => ctx.count(&format!("field.{}.accepted", f.name)),
-        (Err(_), false) => ctx.count(&format!("field.{}.rejected", f.name)),
-        (got, _) => ctx.violation(&format!("field:{}:{}", f.name, if fits { "should-accept" } else { "should-reject" }), format!("{src:?} (value {v}) parses as {:?}", got.map(|a| a.iter().map(from_crate).collect::<Vec<_>>())), case()),
+    for form in 0..field_forms(f) {
+        ctx.eval();
+        let src = field_src(f, form, text);
+        let case = || Json::obj().set("source", src.as_str()).set("value", v).set("field", f.name);
+        let Some(res) = ctx.no_panic("parse_ast", case, || parse_ast(&src)) else { return };
+        let mn = src.split(' ').next().unwrap_or("").to_uppercase();
+        match (res, fits) {
+            (Ok(ast), true) if ast.len() == 1 && from_crate(&ast[0]).k == field_expect(f, form, v) => { ctx.count(&format!("field.{}.accepted", f.name)); if form > 0 { ctx.count("field.other-mnemonics.accepted"); } }
+            (Err(_), false) => { ctx.count(&format!("field.{}.rejected", f.name)); if form > 0 { ctx.count("field.other-mnemonics.rejected"); } }
+            (got, _) => { ctx.violation(&format!("field:{}:{}{}", f.name, if fits { "should-accept" } else { "should-reject" }, if form > 0 { format!(":{mn}") } else { String::new() }), format!("{src:?} (value {v}) parses as {:?}", got.map(|a| a.iter().map(from_crate).collect::<Vec<_>>())), case()); return; }
+        }
     }
 }
 
